@@ -97,3 +97,43 @@ pub fn c10_size_updates() {
     std::mem::forget(dst);
     std::mem::forget(enc);
 }
+
+/// C10.str: the string head written by `encode_str` around the 7-bit prefix limit.  The
+/// Huffman coder is a ghost that appends exactly `G_HUFF_LEN` octets (octet j = j ^ 0x5a) -
+/// the real coder is C11.huff / C11.table - so the encoded length is exact by construction.
+/// Reference (RFC 7541 §5.1/§5.2): H bit set, length as a 7-bit-prefix integer (127 means
+/// "more octets follow"), then exactly `len` octets in order.
+pub(crate) static mut G_HUFF_LEN: usize = 0;
+pub(crate) fn stub_huffman_encode_ghost(_src: &[u8], dst: &mut BytesMut) {
+    let n = unsafe { G_HUFF_LEN };
+    let mut j = 0;
+    while j < n {
+        dst.put_u8((j as u8) ^ 0x5a);
+        j += 1;
+    }
+}
+fn str_head<const N: usize>() {
+    unsafe { G_HUFF_LEN = N };
+    let mut dst = BytesMut::with_capacity(512);
+    let lead: u8 = kani::any();
+    dst.put_u8(lead); // something already in the block
+    encode_str(b"x", &mut dst);
+    assert!(dst[0] == lead);
+    let out = &dst[1..];
+    match ref_decode_int(out, 7) {
+        RefInt::Val(v, k) => {
+            assert!(out[0] & 0x80 == 0x80, "H bit lost");
+            assert!(v as usize == N, "C10.str: string length head differs from the number of octets that follow (decoder mis-frames the block)");
+            assert!(out.len() == k + N, "C10.str: octets lost or duplicated behind the head");
+            let j: usize = kani::any();
+            kani::assume(j < N);
+            assert!(out[k + j] == (j as u8) ^ 0x5a, "C10.str: string octets moved out of order while making room for the head");
+        }
+        _ => panic!("C10.str: string head is not a complete RFC 7541 integer"),
+    }
+    kani::cover!(true, "end");
+    std::mem::forget(dst);
+}
+pub fn c10_str_head_126() { str_head::<126>() }
+pub fn c10_str_head_127() { str_head::<127>() }
+pub fn c10_str_head_128() { str_head::<128>() }
